@@ -1,6 +1,8 @@
 #ifndef AI_TOOLBOX_UTILS_PROBABILITY_HEADER_FILE
 #define AI_TOOLBOX_UTILS_PROBABILITY_HEADER_FILE
 
+#include <cmath>
+#include <limits>
 #include <random>
 #include <algorithm>
 
@@ -234,6 +236,32 @@ namespace AIToolbox {
     }
 
     /**
+     * @brief This function samples the logarithm of a Gamma(shape, 1) variable.
+     *
+     * For shapes below one a Gamma sample is very often smaller than the
+     * smallest positive double (for shape 0.001 about half of the samples
+     * are). Code that needs ratios of Gamma samples (Beta, Dirichlet) can
+     * fall back on logarithms when all its samples underflowed. We use that
+     * Gamma(shape) is distributed as Gamma(shape + 1) * U^(1 / shape).
+     *
+     * @param shape The shape parameter, greater than zero.
+     * @param generator A random number generator.
+     *
+     * @return The logarithm of the sampled number.
+     */
+    template <typename G>
+    double sampleLogGammaDistribution(const double shape, G & generator) {
+        if (shape >= 1.0) {
+            std::gamma_distribution<double> dist(shape, 1.0);
+            return std::log(dist(generator));
+        }
+        std::gamma_distribution<double> dist(shape + 1.0, 1.0);
+        const double g = dist(generator);
+        const double u = 1.0 - probabilityDistribution(generator);
+        return std::log(g) + std::log(u) / shape;
+    }
+
+    /**
      * @brief This function samples from a Beta distribution.
      *
      * The Beta distribution can be useful as it is the conjugate prior of the
@@ -255,8 +283,18 @@ namespace AIToolbox {
     double sampleBetaDistribution(double a, double b, G & generator) {
         std::gamma_distribution<double> dista(a, 1.0);
         std::gamma_distribution<double> distb(b, 1.0);
-        const auto X = dista(generator);
-        const auto Y = distb(generator);
+        auto X = dista(generator);
+        auto Y = distb(generator);
+        if (X + Y == 0.0) {
+            // Both samples underflowed to zero (tiny parameters), and we
+            // would return 0/0. We sample again in log space, and scale by
+            // the largest sample.
+            const auto logX = sampleLogGammaDistribution(a, generator);
+            const auto logY = sampleLogGammaDistribution(b, generator);
+            const auto m = std::max(logX, logY);
+            X = std::exp(logX - m);
+            Y = std::exp(logY - m);
+        }
         return X / (X + Y);
     }
 
@@ -306,6 +344,20 @@ namespace AIToolbox {
             std::gamma_distribution<double> dist(params[i], 1.0);
             out[i] = dist(generator);
             sum += out[i];
+        }
+        if (sum == 0.0) {
+            // All samples underflowed to zero (tiny parameters), and we would
+            // divide zero by zero. We sample again in log space, and scale by
+            // the largest sample so that the sum is at least one.
+            double max = -std::numeric_limits<double>::infinity();
+            for (size_t i = 0; i < static_cast<size_t>(params.size()); ++i) {
+                out[i] = sampleLogGammaDistribution(params[i], generator);
+                max = std::max(max, out[i]);
+            }
+            for (size_t i = 0; i < static_cast<size_t>(params.size()); ++i) {
+                out[i] = std::exp(out[i] - max);
+                sum += out[i];
+            }
         }
         out /= sum;
     }
